@@ -449,15 +449,27 @@ func (r *FnRun) callByContract(fr *Frame, st *State, ct *Contract, names []strin
 			}
 		}
 	}
-	if ufn := ct.Opts["deterministic"]; ufn != "" && len(res) == 1 {
+	if dopt := ct.Opts["deterministic"]; dopt != "" && len(res) == 1 {
+		ufn, dargs := splitDeterministic(dopt)
 		u := r.e.cs.UFuncs[ufn]
 		if u == nil {
 			sfail("%s: deterministic names unknown ufunc %q", ct.Name, ufn)
 		}
 		r.declareFun("uf_"+u.Name, r.msl(u.Args), r.ms(u.Res))
 		var ts []Term
-		for _, a := range args {
-			ts = append(ts, termOf(a))
+		if dargs == nil {
+			for _, a := range args {
+				ts = append(ts, termOf(a))
+			}
+		} else {
+			penv := &specEnv{st: pre, old: pre, vars: vars, pkg: ct.Pkg, what: ct.Name + " deterministic"}
+			for _, a := range dargs {
+				ex, err := parseSpec(a)
+				if err != nil {
+					sfail("%s: %v", ct.Name, err)
+				}
+				ts = append(ts, r.argTerm(r.evalSpec(ex, penv), penv))
+			}
 		}
 		r.assume(Eq(termOf(res[0]), App("uf_"+u.Name, r.ms(u.Res), ts...)))
 	}
@@ -504,9 +516,22 @@ func (r *FnRun) havocTarget(st *State, e SExpr, env *specEnv) {
 			for _, a := range x.Args {
 				idx = append(idx, r.argTerm(r.evalSpec(a, &pre), env))
 			}
-			if len(idx) == 1 {
+			if len(idx) == 1 && g.Arity == 1 {
 				na := r.fresh("G_"+g.Name, arr.Sort)
 				r.assume(Eq(na, Store(arr, idx[0], r.fresh("gv", g.Sort))))
+				st.ghost[g.Name] = na
+				return
+			}
+			if len(idx) == 1 && g.Arity == 2 {
+				// g(x, *): everything keyed by x
+				na := r.fresh("G_"+g.Name, arr.Sort)
+				r.assume(Eq(na, Store(arr, idx[0], r.fresh("gv", arr.Sort.ArrElem()))))
+				st.ghost[g.Name] = na
+				return
+			}
+			if len(idx) == 2 && g.Arity == 2 {
+				na := r.fresh("G_"+g.Name, arr.Sort)
+				r.assume(Eq(na, Store(arr, idx[0], Store(Select(arr, idx[0]), idx[1], r.fresh("gv", g.Sort)))))
 				st.ghost[g.Name] = na
 				return
 			}
@@ -639,8 +664,18 @@ func (r *FnRun) havocLoop(fr *Frame, st *State, l *loopT) {
 		if !ok || !ms.allocs[a] {
 			continue
 		}
-		if p, ok := val.(PtrVal); ok && p.Kind == pkCell {
-			st.cells[p.Cell] = r.freshVal(st, p.Cell.typ, "lp_"+p.Cell.name)
+		if p, ok := val.(PtrVal); ok {
+			switch p.Kind {
+			case pkCell:
+				st.cells[p.Cell] = r.freshVal(st, p.Cell.typ, "lp_"+p.Cell.name)
+			case pkHeap:
+				// a local that lives on the heap (its address escapes): forget its fields
+				r.havocArgs(st, []Val{p})
+			case pkArr:
+				if at, ok := under(p.Elem).(*types.Array); ok {
+					r.havocArgs(st, []Val{SliceVal{Base: p.Base, Off: r.idxLit(0), Len: r.idxLit(at.Len()), Cap: r.idxLit(at.Len()), Elem: at.Elem()}})
+				}
+			}
 		}
 	}
 	r.havocEscaped(st)
